@@ -26,6 +26,8 @@ CODES = {
     12: "the rollback did not write both the status and the object although nothing was rejected",
     13: "a failed canary replica set was deleted within two minutes of its failure",
     14: "a replica set still reporting pods was deleted",
+    15: "the failed canary replica set was deleted while spec.template still names its template (the rollback cannot complete any more)",
+    16: "a replica set that is not the active one lost its Canary-Failed mark (the only durable record of the failure)",
     20: "harness panic",
 }
 GO_TIMEOUT = 1500
